@@ -988,7 +988,10 @@ where
         job.job_controlled = true;
         job.state = result.into();
         job.name = name();
-        env.jobs.insert(job);
+        let index = env.jobs.insert(job);
+        // The job that has just been suspended becomes the current job, as in
+        // `JobList::update_status`. This never fails for a suspended job.
+        env.jobs.set_current_job(index).ok();
 
         if env.is_interactive() {
             return Break(Divert::Interrupt(Some(exit_status)));
@@ -1038,7 +1041,10 @@ where
         job.job_controlled = true;
         job.state = result.into();
         job.name = job_name();
-        env.jobs.insert(job);
+        let index = env.jobs.insert(job);
+        // The job that has just been suspended becomes the current job, as in
+        // `JobList::update_status`. This never fails for a suspended job.
+        env.jobs.set_current_job(index).ok();
 
         if env.is_interactive() {
             return Break(Divert::Interrupt(Some(exit_status)));
